@@ -124,6 +124,7 @@ var mutantCatalogue = map[string][]mutant{
 		{Name: "nop costs zero cycles", File: "risc/risc.go", Old: "\tcase Nop:\n\t\treturn 1", New: "\tcase Nop:\n\t\treturn 0"},
 	},
 	"C09": {
+		{Name: "flush keeps the fetch unit complete", File: "proc/mvp6-2/fu.go", Old: "\tu.complete = false\n", New: ""},
 		{Name: "final drain ignores a busy write unit", File: "proc/mvp8-0/cpu.go", Old: "\t\t\tif !wu.isEmpty() || !m.writeBus.IsEmpty() {\n\t\t\t\tempty = false\n\t\t\t}\n", New: "\t\t\tif !wu.isEmpty() || !m.writeBus.IsEmpty() {\n\t\t\t}\n"},
 		{Name: "undispatched instruction dropped", File: "proc/mvp7-0/cu.go", Old: "\t\t\tu.pendings.Push(runner)\n", New: ""},
 		{Name: "ret drain forgets the write bus", File: "proc/mvp6-3/cpu.go", Old: "for !m.areExecuteUnitsEmpty() || !m.areWriteUnitsEmpty() || !m.writeBus.IsEmpty() {", New: "for !m.areExecuteUnitsEmpty() || !m.areWriteUnitsEmpty() {"},
@@ -134,6 +135,7 @@ var mutantCatalogue = map[string][]mutant{
 		{Name: "queue dispatch forgets the branch flag", File: "proc/mvp7-1/cu.go", Old: "\t\t\tif runner.Runner.InstructionType().IsConditionalBranch() {\n\t\t\t\tu.pendingConditionalBranch = true\n\t\t\t}\n\t\t} else {\n\t\t\tu.skippedInCurrentCycle = append(u.skippedInCurrentCycle, runner)", New: "\t\t} else {\n\t\t\tu.skippedInCurrentCycle = append(u.skippedInCurrentCycle, runner)"},
 	},
 	"C03": {
+		{Name: "decode goes on behind a jump in the same step", File: "proc/mvp7-0/du.go", Old: "\t\t\tjump = true\n", New: ""},
 		{Name: "flush keeps the pending queue", File: "proc/mvp7-0/cu.go", Old: "func (u *controlUnit) flush() {\n\tu.pendings = comp.NewQueue[risc.InstructionRunnerPc](pendingLength)\n", New: "func (u *controlUnit) flush() {\n"},
 		{Name: "flush drain ends while a unit is busy", File: "proc/mvp6-2/cpu.go", Old: "\t\t\t\t\t\tisEmpty = false\n", New: ""},
 		{Name: "fetch redirect without a new epoch", File: "proc/mvp6-1/fu.go", Old: "func (u *fetchUnit) reset(pc int32, cleanPending bool) {\n\tu.ctx.IncSequenceID()\n", New: "func (u *fetchUnit) reset(pc int32, cleanPending bool) {\n"},
